@@ -68,7 +68,7 @@ def canon_sx(s):
     return kids
 
 
-ORDER_FREE = ("collect", "expand", "expand-nocomm")
+ORDER_FREE = ("collect", "expand")
 
 
 def order_sensitive(s):
@@ -160,6 +160,10 @@ def expand_shapes():
     for base in (p.Sum((x, 1)), p.Product((x, y)), x, p.Product((x, p.Sum((y, 1)))),
                  p.Power(p.Sum((x, 1)), 2), p.Sum((x, y, 1))):
         for ex in (-2, -1, 0, 1, 2, 3):
+            out.append(p.Power(base, ex))
+    # exponents that are not positive ints: symbolic, a quotient, a float, a bool
+    for base in (p.Sum((x, 1)), p.Product((x, p.Sum((y, 1))))):
+        for ex in (y, p.Quotient(1, 2), 2.0, True, False):
             out.append(p.Power(base, ex))
     for num, den in itertools.product((1, x, p.Sum((x, 1)), 2), (y, p.Sum((y, 1)), p.Product((x, y)), 3)):
         out.append(p.Quotient(num, den))
@@ -527,6 +531,42 @@ class AllNodesStream(RewriteStream):
             nt[k] = nt.get(k, 0) + v
 
 
+class TableRewriteStream(RewriteStream):
+    """T-gen tie: the compiled TABLE INTERPRETER (lean/PV/Model/RewriteTable.lean) run on the tables
+    regenerated from the source on this run (lean/PV/Generated/Rewrite.lean: every method body of
+    the rewriting mappers statement by statement; lean/PV/Generated/Traversal.lean: the inherited
+    IdentityMapper rows) against the real entry points.  This is what gives the table language its
+    meaning and checks the reader extract/rewrite.py: after a source edit the regenerated table
+    changes, the `*_table_current` obligations break, and this stream still has to agree with the
+    edited code.  (The oracle runs in the `rewrites` stream.)"""
+    name = "table-rewrites"
+    n_quick = 900
+
+    def request(self, pl):
+        return "(c11t " + super().request(pl)[1:]
+
+    def oracle(self, pl):
+        return None
+
+    def shrink(self, pl):
+        return iter(())
+
+
+class TableAllNodesStream(AllNodesStream):
+    """the same for flatten / both folders on every node type (inherited handlers = C04 rows)"""
+    name = "table-rewrites-all-node-types"
+    n_quick = 450
+
+    def request(self, pl):
+        return "(c11t " + super().request(pl)[1:]
+
+    def oracle(self, pl):
+        return None
+
+    def shrink(self, pl):
+        return iter(())
+
+
 class ValidatedExpandStream(Stream):
     """translation validation: the VERIFIED normal form `polyNorm` (theorem
     `polyNorm_sound`) is run by the Lean driver on (input, output of the real `expand`); equal
@@ -753,21 +793,34 @@ def probes():
 # }}}
 
 
+def extract(ctx=None):
+    """T-gen: lean/PV/Generated/Rewrite.lean from the source of pymbolic/mapper/flattener.py,
+    constant_folder.py, collector.py, distributor.py (and lean/PV/Generated/Traversal.lean, the
+    IdentityMapper rows the inherited handlers go through, shared with C04)"""
+    from extract.rewrite import extract_rewrite
+    from extract.traversal import extract_traversal
+    extract_traversal(ctx)
+    return extract_rewrite(ctx)
+
+
 PROP = Prop(
     id="C11",
     title="Algebraic rewrites preserve value and reach their normal forms",
-    lean_targets=["PV.Properties.C11"],
+    lean_targets=["PV.Properties.C11", "PV.Properties.C11Table"],
     theorems=[],
-    streams=[RewriteStream(), AllNodesStream(), ValidatedExpandStream(), EqualPolysStream()],
+    extractors=[extract],
+    streams=[RewriteStream(), AllNodesStream(), TableRewriteStream(), TableAllNodesStream(),
+             ValidatedExpandStream(), EqualPolysStream()],
     probes=[probes],
     trusted_base=["Lean 4.33 kernel + Mathlib (Field, zpow, ring/field_simp); axioms propext, Classical.choice, Quot.sound only",
                   "harness serialisation; outputs of collect/expand are compared after sorting the children of every Sum/Product on both sides (TermCollector iterates a frozenset: order depends on string hashes)",
                   "harness/oracles/ratfun.py: exact polynomial / rational-function arithmetic over Fraction written from scratch (independent reference)",
-                  "PyNum/den/evalG/deps models of C02/C09 (constant detection and evaluation inside fold), themselves tied by their own correspondence streams"],
+                  "PyNum/den/evalG/deps models of C02/C09 (constant detection and evaluation inside fold), themselves tied by their own correspondence streams",
+                  "extract/rewrite.py: reads every method of FlattenMapper, the two constant folders, TermCollector, DistributeMapper and the entry points flatten / distribute from the source with ast (names resolved to the objects they are bound to; an unrecognised statement / expression / object is an extraction error, never a default); the meaning given to the table language (lean/PV/Model/RewriteTable.lean: c11Eval, c11Exec, c11Apply) and the reader are validated by the streams table-rewrites / table-rewrites-all-node-types (compiled table interpreter on the regenerated tables vs the real entry points)"],
     assumptions=["termination of fold / split_term / dist / map_power is not proved: the models take fuel and every theorem is of the form 'if the model returns a tree, then ...'; the driver supplies fuel 4000 and never ran out on any generated input",
                  "floats are outside the model: a constant subterm whose evaluation leaves the integers (true division, negative powers) makes the model abstain, and the value oracle skips outputs that contain a float",
                  "the CSE result cache of the constant folders is keyed with Python ==; the model computes the uncached result and abstains when the input has a CSE wrapper together with bool/float constants or keyword calls"],
-    level_text="Lean theorems, for all expressions, all fields K and all assignments (value semantics evalK: Int constants, variables, sums, products, quotients, integer-literal powers as zpow, CSE wrappers): flattened_sum/flattened_product, flatten, both constant folders, TermCollector (any parameters) and DistributeMapper (expand/distribute, any configuration; one dist step separately) return trees that have the value of the input wherever the input has one; flatten's result has, at every depth, no sum under a sum, no product under a product, no zero operand in a sum and no zero/one operand in a product; a folded sum (either folder) / product (commutative folder) has at most one constant operand; polyNorm is a verified normal form for polynomial expressions (equal normal forms => equal value everywhere) and is run by the driver on every (input, real output) pair of a dedicated stream (translation validation). Tied to the code by correspondence of output trees on ~13k (quick) / ~67k (thorough) generated inputs incl. all node types for flatten/fold, plus an exact rational-function oracle, normal-form scans and a like-term multiset comparison on pairs of equal polynomials. Negation witnesses (theorems *_cex) for the five known findings.",
+    level_text="Lean theorems, for all expressions, all fields K and all assignments (value semantics evalK: Int constants, variables, sums, products, quotients, integer-literal powers as zpow, CSE wrappers): flattened_sum/flattened_product, flatten, both constant folders, TermCollector (any parameters) and DistributeMapper (expand/distribute, any configuration; one dist step separately) return trees that have the value of the input wherever the input has one; flatten's result has, at every depth, no sum under a sum, no product under a product, no zero operand in a sum and no zero/one operand in a product; a folded sum (either folder) / product (commutative folder) has at most one constant operand; polyNorm is a verified normal form for polynomial expressions (equal normal forms => equal value everywhere) and is run by the driver on every (input, real output) pair of a dedicated stream (translation validation). Tied to the code by correspondence of output trees on ~13k (quick) / ~67k (thorough) generated inputs incl. all node types for flatten/fold, plus an exact rational-function oracle, normal-form scans and a like-term multiset comparison on pairs of equal polynomials. Negation witnesses (theorems *_cex) for the five known findings. T-gen: the table regenerated from the source of the four mapper modules on every run (every method body statement by statement, class MROs, entry points with defaults) is the frozen table the proofs were made for (rfl), and for ALL inputs flattenM, foldM, collectM, splitTerm, distLoop, distM are the statement interpreter run on that table (inherited handlers through the regenerated C04 IdentityMapper rows); the value / normal-form theorems are restated over the table-driven functions; four witnesses show tables read from edited sources (split_term forgetting an exponent, the folder dropping a falsy constant, dist multiplying on the wrong side, a changed default of expand) interpreted differently from the model.",
     level_note="Not proved: termination / non-failure (fuel; non-failure is checked by the oracle on the fragment only, and is FALSE for expand/collect on sums with quotient terms: known findings); the normal form of expand (FALSE: known findings expand-nf-*; checked by the oracle). Trusted: Lean kernel, harness, ratfun oracle, the C02/C09 models used inside fold. Floats and the Python==-keyed CSE cache are outside the model (it abstains).",
     technique="Lean 4 proofs about executable models (fuel-indexed, mirroring the Python control flow) + differential correspondence of output trees + exact rational-function oracle + translation validation with a verified polynomial normal form",
     design_ref="DESIGN.md §4 C11",
